@@ -585,6 +585,12 @@ pub fn call(flavour: Flavour, locale_expr: &str, key: &str, tail: &str) -> Strin
 
 /// an expression of type String reading `segments` (namespace first, if any) in `locale_expr`
 pub fn scoped_call(flavour: Flavour, scoping: Scoping, locale_expr: &str, segments: &[String], tail: &str) -> String {
+    scoped_call_switch(flavour, scoping, locale_expr, None, segments, tail)
+}
+
+/// `switch_to`: (context view flavours) the value is built under `locale_expr`, the context is then moved to
+/// `switch_to`, and only then rendered: it must show the locale being rendered
+pub fn scoped_call_switch(flavour: Flavour, scoping: Scoping, locale_expr: &str, switch_to: Option<&str>, segments: &[String], tail: &str) -> String {
     let mac = flavour.macro_name();
     let (tail, bindings) = match tail.split_once('\u{1}') {
         Some((t, b)) => (t, b),
@@ -627,6 +633,10 @@ pub fn scoped_call(flavour: Flavour, scoping: Scoping, locale_expr: &str, segmen
     } else {
         pre.push_str(&format!("let l = scope_locale!({locale_expr}, {}); ", prefix.join(".")));
         source = "l".to_string();
+    }
+    if let Some(to) = switch_to {
+        assert!(flavour.needs_ctx() && flavour.is_view());
+        return format!("{{ {bindings}{pre}let v = {mac}!({source}, {rest}{tail}); ctx().set_locale({to}); html(v) }}");
     }
     format!("{{ {bindings}{pre}{} }}", wrap(format!("{mac}!({source}, {rest}{tail})")))
 }
